@@ -128,23 +128,32 @@ func jsonSpell(r *core.Run) map[int64]string {
 // ---------------------------------------------------------------------------
 
 type engResult struct {
-	obs    []*core.Obligation
-	notes  []string
-	assume []string
-	counts map[string]int
+	aborted [][2]string // engines that gave up: tag, reason
+	obs     []*core.Obligation
+	notes   []string
+	assume  []string
+	counts  map[string]int
 }
 
-var engCache = map[*core.Program]*engResult{}
+// engine results per program and per view (propEngineView): a property that looks at one package never consumes
+// another property's view (the evaluation's batch mode decides several properties on one load)
+type engCacheKey struct {
+	prog *core.Program
+	view string
+}
+
+var engCache = map[engCacheKey]*engResult{}
 var engCacheMu sync.Mutex
 
 func emitEngine(r *core.Run, rule string) {
+	ck := engCacheKey{r.Prog, propEngineView[r.Prop]}
 	engCacheMu.Lock()
-	res := engCache[r.Prog]
+	res := engCache[ck]
 	engCacheMu.Unlock()
 	if res == nil {
 		res = runEngineAll(r)
 		engCacheMu.Lock()
-		engCache[r.Prog] = res
+		engCache[ck] = res
 		engCacheMu.Unlock()
 	}
 	pkgFilter := map[string][]string{"C06": {"js."}, "C07": {"css."}, "C09": {"html."}, "C10": {"json."}, "C11": {"xml."}}
@@ -173,6 +182,13 @@ func emitEngine(r *core.Run, rule string) {
 	}
 	for _, a := range res.assume {
 		r.Assumption(a)
+	}
+	// an engine that gave up decided nothing: a property that does not consume R-CURSOR (where the abort is an
+	// obligation of its own) must not read the missing obligations as discharged
+	if rule != "R-CURSOR" && !propHasRule(r.Prop, "R-CURSOR") {
+		for _, ab := range res.aborted {
+			r.Unknown("engine "+ab[0]+" ["+rule+"]", token.NoPos, ab[1])
+		}
 	}
 	if rule == "R-CURSOR" {
 		for k, v := range res.counts {
@@ -256,6 +272,7 @@ func runEngineAll(r *core.Run) *engResult {
 		if e.aborted != "" {
 			sub.SetRule("R-CURSOR")
 			sub.Unknown("engine "+e.cfg.Tag, token.NoPos, e.aborted)
+			res.aborted = append(res.aborted, [2]string{e.cfg.Tag, e.aborted})
 		}
 		for _, k := range e.obOrder {
 			o := e.obs[k]
@@ -746,4 +763,13 @@ func runCSSParser(r *core.Run, tasks *[]*engTask) {
 		st.heap["lo:len("+stackPath+")"] = intVal(2)
 		*tasks = append(*tasks, &engTask{e: e, run: func() { e.Run(fn, st, nil) }})
 	}
+}
+
+func propHasRule(prop, rule string) bool {
+	for _, rl := range For(prop) {
+		if rl.ID == rule {
+			return true
+		}
+	}
+	return false
 }
